@@ -29,6 +29,7 @@ impl StrOpts {
 }
 
 const ASCII_POOL: &[u8] = b"abcdefghijklmnopqrstuvwxyzABCDEFGHIJKLMNOPQRSTUVWXYZ0123456789 _-.:[]()!#$%&*+,/;<=>?@^`{|}~'\"";
+const TOKENS: &[&str] = &["]]>", "<![CDATA[", "&amp;", "&#0;", "&#x1;", "<!--", "-->", "<?x", "?>", "</a>", "%s", "{}", "${x}", "''", "\\n", "\\u0000", "^1", "0x"];
 const UNI_POOL: &[char] = &[
     'é', 'ß', 'ø', 'Ж', 'я', '中', '文', '日', '本', 'ñ', 'ü', '€', '☃', '✓', '🎮', '𝄞', '\u{a0}', '\u{feff}', 'İ', 'ǅ',
 ];
@@ -75,6 +76,15 @@ pub fn string(t: &mut Tape, o: &StrOpts) -> String {
     let mut n = 0;
     while n < len {
         let k = t.draw(DATA, 16);
+        if k == 12 && t.draw(DATA, 2) == 0 {
+            // a character sequence that means something to an output format or a parser down the line
+            let tok = *t.pick(DATA, TOKENS);
+            if n + tok.chars().count() <= len && !tok.chars().any(|c| o.forbid.contains(&c)) {
+                s.push_str(tok);
+                n += tok.chars().count();
+                continue;
+            }
+        }
         let c = if k >= 14 && o.unicode {
             UNI_POOL[t.draw(DATA, UNI_POOL.len() as u64) as usize]
         } else if k == 13 && (o.control || nasty) && !tame_keys() {
